@@ -6,7 +6,7 @@ for NAME in "$@"; do
   WT=/tmp/wt-mut-$NAME
   git -C /repo worktree add -q --detach $WT HEAD || continue
   if ( cd $WT && python3 /verif/tools/mutations/apply.py $NAME ); then
-    ( cd /verif && VERIF_REPO=$WT timeout 1500 ./verif check $PROP --budget $BUDGET --workers ${WORKERS:-6} > /tmp/mut-$NAME.out 2>&1 )
+    ( cd /verif && VERIF_REPO=$WT timeout 1500 ./verif check $PROP ${TIER:+--tier $TIER} --budget $BUDGET --workers ${WORKERS:-6} > /tmp/mut-$NAME.out 2>&1 )
     echo "MUT $NAME prop=$PROP exit=$? violations=$(grep -c '^VIOLATION' /tmp/mut-$NAME.out) :: $(grep '^VIOLATION' /tmp/mut-$NAME.out | sed 's/.*signature=//' | cut -c1-90 | head -3 | tr '\n' '|')"
   else
     echo "MUT $NAME: edit failed"
